@@ -7,6 +7,8 @@ import (
 	"fmt"
 	"io"
 	"math/rand"
+	"runtime"
+	"time"
 	"unsafe"
 
 	"github.com/bytedance/gopkg/lang/mcache"
@@ -30,6 +32,9 @@ type PoolCase struct {
 	// Companion: a second reader / writer of the same kind lives next to the instance under test and grows, hands out and
 	// releases on its own schedule between the instance's operations; for the ownership rules it is a co-tenant
 	Companion bool `json:"companion,omitempty"`
+	// Abandon (reader): the history ends WITHOUT a Release: the reader is dropped (connection abandoned mid-frame), the
+	// garbage collector and the finalizers run, the co-tenant works the pool - the slices handed out are still valid
+	Abandon bool `json:"abandon,omitempty"`
 }
 
 // dataSource serves a fixed byte string under a chunk schedule, optionally with the final data delivered together with EOF.
@@ -261,6 +266,21 @@ func runPoolReader(pc *PoolCase, w *TraceWriter, rec *poolRec) {
 		}
 	}
 	checkLive(w, live)
+	if pc.Abandon {
+		r = nil
+		for k := 0; k < 3; k++ {
+			runtime.GC()
+			time.Sleep(2 * time.Millisecond) // the finalizer goroutine gets its turn
+		}
+		rec.co(0x9D)
+		checkLive(w, live)
+		runtime.GC()
+		time.Sleep(time.Millisecond)
+		rec.co(0x9E)
+		checkLive(w, live)
+		w.Ev("epoch", "why", "abandoned")
+		return
+	}
 	w.Ev("epoch", "why", "end")
 	r.Release(nil)
 	if callerBuf != nil {
@@ -433,32 +453,45 @@ func encStrings(vals []int) (data []byte, offs []int) {
 
 // ReaderSkipDecoder: results are valid until the next Next; its private buffer comes from the pool.
 func runPoolDecoder(pc *PoolCase, w *TraceWriter, rec *poolRec) {
-	data, offs := encStrings(pc.Vals)
-	src := &dataSource{data: data, chunks: pc.Chunks}
-	d := thrift.NewReaderSkipDecoder(src)
-	var live []liveSlice
-	for i := range pc.Vals {
-		checkLive(w, live)
-		w.Ev("epoch", "why", "next")
-		live = nil
-		b, err := d.Next(thrift.STRING)
-		if err != nil {
-			w.Ev("livecheck", "ok", false, "n", 0, "bad", i, "what", "decoder error "+err.Error())
-			break
-		}
-		w.Ev("slice", "sid", i+1, "buf", bufIDOf(b), "len", len(b))
-		exp := data[offs[i]:offs[i+1]]
-		live = append(live, liveSlice{sid: i + 1, b: b, copy: append([]byte(nil), exp...)})
-		checkLive(w, live)
-		if pc.CoEvery > 0 && (i+1)%pc.CoEvery == 0 {
-			rec.co(byte(0xC0 + i%16))
-			checkLive(w, live)
-		}
+	lives := 1
+	if pc.RelEach < 0 { // (decoder kind) -k: k lives of the pooled decoder object, one after the other, over the same values
+		lives = -pc.RelEach
 	}
-	checkLive(w, live)
-	w.Ev("epoch", "why", "release")
-	d.Release()
-	rec.co(0xAB)
+	for life := 0; life < lives; life++ {
+		data, offs := encStrings(pc.Vals)
+		if life%2 == 1 { // other bytes in the next life (the length prefixes stay)
+			for i := range pc.Vals {
+				for k := offs[i] + 4; k < offs[i+1]; k++ {
+					data[k] ^= 0x3C
+				}
+			}
+		}
+		src := &dataSource{data: data, chunks: pc.Chunks}
+		d := thrift.NewReaderSkipDecoder(src)
+		var live []liveSlice
+		for i := range pc.Vals {
+			checkLive(w, live)
+			w.Ev("epoch", "why", "next")
+			live = nil
+			b, err := d.Next(thrift.STRING)
+			if err != nil {
+				w.Ev("livecheck", "ok", false, "n", 0, "bad", i, "what", "decoder error "+err.Error())
+				break
+			}
+			w.Ev("slice", "sid", i+1, "buf", bufIDOf(b), "len", len(b))
+			exp := data[offs[i]:offs[i+1]]
+			live = append(live, liveSlice{sid: i + 1, b: b, copy: append([]byte(nil), exp...)})
+			checkLive(w, live)
+			if pc.CoEvery > 0 && (i+1)%pc.CoEvery == 0 {
+				rec.co(byte(0xC0 + i%16))
+				checkLive(w, live)
+			}
+		}
+		checkLive(w, live)
+		w.Ev("epoch", "why", "release")
+		d.Release()
+		rec.co(0xAB)
+	}
 }
 
 // SkipDecoder over a DefaultReader: results are slices of the reader's buffers, valid until the reader's Release.
@@ -541,7 +574,7 @@ func genPoolCases(c *Ctx) []json.RawMessage {
 		default:
 			cs.Chunks = []int{500 + rng.Intn(9000), 0}
 		}
-		pcase := PoolCase{Kind: "reader", Rd: cs, CoEvery: rng.Intn(4), Companion: i%3 == 0}
+		pcase := PoolCase{Kind: "reader", Rd: cs, CoEvery: rng.Intn(4), Companion: i%3 == 0, Abandon: i%29 == 7 && i < c.Pick(1200, 3500)}
 		if rng.Intn(3) == 0 {
 			cs.Fl = "bytes"
 			cs.S = []int{0, 10, 16, 4096, 5000, 8192, 20000}[rng.Intn(7)]
@@ -610,6 +643,12 @@ func genPoolCases(c *Ctx) []json.RawMessage {
 			pcase.Chunks = []int{4096, 0, 1 + rng.Intn(300)}
 		}
 		out = append(out, mustJSON(pcase))
+	}
+	// decoders whose buffer grew beyond a MiB in one life and are taken from the pool again for small values
+	for _, big := range []int{1<<20 + 1, 1<<20 + 1<<19, 2<<20 + 5, 17 << 20} {
+		for _, chunks := range [][]int{{-1}, {4096, 100000}} {
+			out = append(out, mustJSON(PoolCase{Kind: "decoder", Vals: []int{300, big, 100, 70000}, Chunks: chunks, CoEvery: 1, RelEach: -3}))
+		}
 	}
 	// multi-MiB buffers (beyond any "do not keep buffers larger than X" threshold a Release may have): bytes readers over
 	// 16..32 MiB of caller memory consumed up to a small tail, stream readers grown that far, writers with regions and
